@@ -75,69 +75,76 @@ func secondState(c *core.Case, ref *isa.Result) (*isa.State, *isa.Result, bool) 
 		return nil, nil, false
 	}
 	r := rng.New(uint64(uint32(c.Aux[0])) | uint64(uint32(c.Aux[1]))<<32)
-	s2 := c.Init.Clone()
 	// new data values: arbitrary, or (half of the runs) values that look like
 	// addresses of this memory, the kind a value-as-address slip would react to
 	addrLike := r.Bool()
-	val := func() int32 {
+	val := func(s *isa.State) int32 {
 		if addrLike {
-			return int32(4 * r.Intn(len(s2.Mem)/4+1))
+			return int32(4 * r.Intn(len(s.Mem)/4+1))
 		}
 		return r.I32()
 	}
+	// samePath: the candidate state executes the same instruction sequence
+	// with the same branch outcomes and the same accessed addresses.
+	samePath := func(s *isa.State) (*isa.Result, bool, bool) {
+		ref2 := isa.Exec(c.Prog, s, 20000, true)
+		if !ref2.End.WellFormed() || ref2.End.DefinedError() || len(ref2.Trace) != len(ref.Trace) || ref2.ExitKind != ref.ExitKind {
+			return nil, false, false
+		}
+		differs := false
+		for i := range ref.Trace {
+			a, b := ref.Trace[i], ref2.Trace[i]
+			if a.Idx != b.Idx || a.Taken != b.Taken {
+				return nil, false, false
+			}
+			op := c.Prog.Insts[a.Idx].Op
+			if (op.IsLoad() || op.IsStore()) && a.Addr != b.Addr {
+				return nil, false, false
+			}
+			if a.Value != b.Value {
+				differs = true
+			}
+		}
+		return ref2, true, differs
+	}
+	// greedy construction: memory first, then one register at a time; a change
+	// is kept only if path and addresses stay the same
+	cur := c.Init.Clone()
+	cand := cur.Clone()
 	if addrLike {
-		for i := 0; i+3 < len(s2.Mem); i += 4 {
+		for i := 0; i+3 < len(cand.Mem); i += 4 {
 			if r.Chance(1, 2) {
-				v := val()
+				v := val(cand)
 				for k := 0; k < 4; k++ {
-					s2.Mem[i+k] = int8(uint32(v) >> (8 * uint(k)))
+					cand.Mem[i+k] = int8(uint32(v) >> (8 * uint(k)))
 				}
 			}
 		}
 	} else {
-		for i := range s2.Mem {
+		for i := range cand.Mem {
 			if r.Chance(1, 2) {
-				s2.Mem[i] = int8(r.U64())
+				cand.Mem[i] = int8(r.U64())
 			}
 		}
+	}
+	if _, ok, _ := samePath(cand); ok {
+		cur = cand
 	}
 	for reg := isa.Reg(1); reg < isa.NumRegs; reg++ {
-		if r.Chance(1, 2) {
-			s2.Regs[reg] = val()
+		if !r.Chance(2, 3) {
+			continue
+		}
+		cand = cur.Clone()
+		cand.Regs[reg] = val(cand)
+		if _, ok, _ := samePath(cand); ok {
+			cur = cand
 		}
 	}
-	ref2 := isa.Exec(c.Prog, s2, 20000, true)
-	if !ref2.End.WellFormed() || ref2.End.DefinedError() || len(ref2.Trace) != len(ref.Trace) || ref2.ExitKind != ref.ExitKind {
-		// retry with registers only touched outside address/branch use: keep it simple, memory only
-		s2 = c.Init.Clone()
-		for i := range s2.Mem {
-			if r.Chance(1, 2) {
-				s2.Mem[i] = int8(r.U64())
-			}
-		}
-		ref2 = isa.Exec(c.Prog, s2, 20000, true)
-		if !ref2.End.WellFormed() || ref2.End.DefinedError() || len(ref2.Trace) != len(ref.Trace) || ref2.ExitKind != ref.ExitKind {
-			return nil, nil, false
-		}
-	}
-	same := false
-	for i := range ref.Trace {
-		a, b := ref.Trace[i], ref2.Trace[i]
-		if a.Idx != b.Idx || a.Taken != b.Taken {
-			return nil, nil, false
-		}
-		op := c.Prog.Insts[a.Idx].Op
-		if (op.IsLoad() || op.IsStore()) && a.Addr != b.Addr {
-			return nil, nil, false
-		}
-		if a.Value != b.Value {
-			same = true
-		}
-	}
-	if !same {
+	ref2, ok, differs := samePath(cur)
+	if !ok || !differs {
 		return nil, nil, false // the data did not change anything observable
 	}
-	return s2, ref2, true
+	return cur, ref2, true
 }
 
 func judgeCycles(w *check, c *core.Case) (string, string, runStats) {
